@@ -475,6 +475,14 @@ class QueryPlanner:
         self.plan_select(select2)
         last_step = self.plan.steps[-1]
 
+        # the outer query is executed over a dataframe: sub-queries in it can't be sent along, they are planned as steps of their own
+        find_selects = self.get_nested_selects_plan_fnc(None, force=True)
+        select.targets = query_traversal(select.targets, find_selects)
+        query_traversal(select.where, find_selects)
+        query_traversal(select.having, find_selects)
+        if select.order_by is not None:
+            select.order_by = query_traversal(select.order_by, find_selects)
+
         return self.plan_sub_select(select, last_step)
 
     def get_predictor_namespace_and_name_from_identifier(self, identifier):
